@@ -473,7 +473,73 @@ def r_rt_sweep(e, R):
                         "end-of-life sweep: every resource not yet visited leaks", e.loc(f, c))
     if n == 0:
         raise AnalysisError("tracker: no call found in the end-of-life sweep")
-    R.floor("R-RT-SWEEP", 4)
+    # coverage with polarity: which resource types reach a helper call?  The finally body is interpreted over the keys of
+    # the cleanup table: in the loop the helper must run exactly for the non-folder types, afterwards exactly for 'folder'.
+    keys = cleanup_keys(e)
+    g = e.cfg(f)
+    regv = roles[3]
+
+    def ev(x, env):
+        if isinstance(x, ast.Constant):
+            return x.value
+        if isinstance(x, ast.Name) and x.id in env:
+            return env[x.id]
+        if isinstance(x, (ast.Tuple, ast.List, ast.Set)):
+            return [ev(v, env) for v in x.elts]
+        if isinstance(x, ast.UnaryOp) and isinstance(x.op, ast.Not):
+            return not ev(x.operand, env)
+        if isinstance(x, ast.BoolOp):
+            vs = [ev(v, env) for v in x.values]
+            return all(vs) if isinstance(x.op, ast.And) else any(vs)
+        if isinstance(x, ast.Compare) and len(x.ops) == 1:
+            l, r, op = ev(x.left, env), ev(x.comparators[0], env), x.ops[0]
+            if isinstance(op, ast.Eq):
+                return l == r
+            if isinstance(op, ast.NotEq):
+                return l != r
+            if isinstance(op, ast.In):
+                return l in r
+            if isinstance(op, ast.NotIn):
+                return l not in r
+        raise AnalysisError(f"tracker sweep: condition `{norm(x)}` not interpretable over the resource types")
+
+    helper_calls = [(nd, c) for nd in g.nodes for c in calls_in(nd) if isinstance(c.func, ast.Name) and c.func.id in helpers
+                    and any(_inside(e, c, s_) for s_ in fin)]
+    swept = {}
+    seen_calls = {}
+    for nd, c in helper_calls:
+        # the finally body is duplicated per continuation in the CFG: every copy must agree, report each call once
+        if id(c) in seen_calls:
+            continue
+        seen_calls[id(c)] = nd
+        fors = [pp for pp in _parents(e, c, outer) if isinstance(pp, ast.For)]
+        ctl = [(t, lab) for t in g.nodes if t.kind == "test" and any(_inside(e, t.ast, s_) for s_ in fin) for lab in ("T", "F") if g.on_branch(nd, t, lab)]
+        if fors:
+            fo = fors[0]
+            tv = fo.target.elts[0].id if isinstance(fo.target, ast.Tuple) and isinstance(fo.target.elts[0], ast.Name) else None
+            if tv is None or not (isinstance(c.args[1], ast.Name) and c.args[1].id == tv):
+                raise AnalysisError("tracker sweep: loop variable of the sweep not recognised")
+            for k in sorted(keys):
+                env = {tv: k, regv: keys}
+                if all(bool(ev(t.ast, env)) == (lab == "T") for t, lab in ctl):
+                    swept.setdefault(k, []).append("loop")
+        else:
+            if not (len(c.args) == 2 and isinstance(c.args[1], ast.Constant)):
+                raise AnalysisError("tracker sweep: helper call outside the loop without a literal type")
+            k = c.args[1].value
+            sub = c.args[0]
+            okarg = isinstance(sub, ast.Subscript) and isinstance(sub.value, ast.Name) and sub.value.id == regv and isinstance(sub.slice, ast.Constant) and sub.slice.value == k
+            if okarg and all(bool(ev(t.ast, {regv: keys})) == (lab == "T") for t, lab in ctl):
+                swept.setdefault(k, []).append("after")
+    R.info["sweep_coverage"] = {k: swept.get(k, []) for k in sorted(keys)}
+    for k in sorted(keys):
+        want = ["after"] if k == "folder" else ["loop"]
+        R.check(swept.get(k, []) == want, "R-RT-SWEEP", f"sweep: type {k!r} is swept exactly once ({want[0]} the loop)" if k == "folder" else
+                f"sweep: type {k!r} is swept exactly once (in the loop)", f.short, f"{k}: {swept.get(k, [])}",
+                f"at end of life the resources of type {k!r} are swept {swept.get(k, []) or 'never'} instead of once "
+                f"({'after every other type' if k == 'folder' else 'in the loop over the registry'}): they leak / are deleted in the wrong order",
+                e.loc(f, outer))
+    R.floor("R-RT-SWEEP", 4 + len(keys))
 
 
 def _inside(e, node, anc):
@@ -790,6 +856,26 @@ def r_relaunch(e, R):
     R.check(bool(closes), "R-RELAUNCH", "ensure_running: the dead tracker's fd is closed", er.short, "os.close(self._fd)", "fd leak per tracker relaunch", e.loc(er, t.ast))
     R.check(bool(reaps) and all(any(m.kind == "except" for m, l in n.succ if l == "exc") for n in reaps), "R-RELAUNCH",
             "ensure_running: the dead tracker is reaped (failure tolerated)", er.short, "os.waitpid(self._pid, 0)", "zombie tracker per relaunch", e.loc(er, t.ast))
+    # the tracker is the child of the *root* process only: in every other process of the tree waitpid raises ChildProcessError
+    for n in reaps:
+        trys = [pp for pp in _parents(e, stmt_of(e, er, n.ast) if not isinstance(n.ast, ast.stmt) else n.ast, er.node) if isinstance(pp, ast.Try)]
+        hts = {("bare" if h.type is None else norm(h.type)) for tr_ in trys[:1] for h in tr_.handlers}
+        R.check(bool(hts & {"bare", "OSError", "ChildProcessError", "Exception", "BaseException"}), "R-RELAUNCH",
+                "ensure_running: reaping tolerates ChildProcessError (the tracker is not this process's child in a worker)", er.short,
+                f"except {sorted(hts)}", f"waitpid on the dead tracker is only protected by {sorted(hts)}: in a child process (the tracker belongs to "
+                "the root) ChildProcessError escapes and the tracker is never relaunched there", e.loc(er, n.ast))
+    # the probe is made exactly when a tracker was installed; without one the launch is reached directly
+    fdt = [x for x in g.nodes if x.kind == "test" and none_test(x.ast) and norm(none_test(x.ast)[0]) == "self._fd"]
+    if not fdt:
+        raise AnalysisError("ensure_running: test of self._fd against None not found")
+    ft = fdt[0]
+    nn_label = none_test(ft.ast)[1]                       # label on which the operand is NOT None
+    none_label = "F" if nn_label == "T" else "T"
+    R.check(g.on_branch(t, ft, nn_label), "R-RELAUNCH", "ensure_running: the liveness probe runs only when a tracker fd is installed", er.short,
+            norm(ft.ast), "the tracker is probed through a None fd / not probed when one is installed", e.loc(er, ft.ast))
+    R.check(g.path_exists(ft, lambda x: x in sp, avoid=[t], start_labels=[none_label], use_exc=False), "R-RELAUNCH",
+            "ensure_running: without an installed tracker the launch is reached", er.short, norm(ft.ast),
+            "no tracker is ever launched for a process that has none", e.loc(er, ft.ast))
     R.check(all(resets.values()), "R-RELAUNCH", "ensure_running: fd and pid are reset before the relaunch", er.short, "self._fd = None; self._pid = None",
             "a failed relaunch leaves the dead tracker's fd/pid installed", e.loc(er, t.ast))
     for n in [x for v in resets.values() for x in v]:
